@@ -20,9 +20,23 @@ TIMEOUT = {"quick": 900, "thorough": 5400}
 CONFIGS = ["Borda", "BordaBucket", "PickAPerm", "Copeland", "KwikSort", "BioConsert", "BioCo", "BioConsert[Borda]",
            "BioConsert[PickAPerm]", "BioConsert[Copeland,KwikSort]", "BioConsert[Borda,PickAPerm]", "ParCons",
            "ParCons(BioCo;0)", "ParCons(BioConsert[Borda];0)", "ParCons(KwikSort;2)", "ParCons(Borda;0)",
-           "ParCons(PickAPerm;0)", "Pulp", "Exact", "ExactNoOpt"]
+           "ParCons(PickAPerm;0)", "Pulp", "Exact", "ExactNoOpt", "BioConsert[Exact,Borda]", "BioConsert[ParCons,PickAPerm]"]
 IFF = {"Borda", "BordaBucket", "PickAPerm", "BioConsert[Borda]", "BioConsert[PickAPerm]", "BioCo",
-       "BioConsert[Borda,PickAPerm]"}
+       "BioConsert[Borda,PickAPerm]", "BioConsert[Exact,Borda]", "BioConsert[ParCons,PickAPerm]"}
+STRICT_LEAVES = ("Borda", "BordaBucket", "PickAPerm", "BioCo")
+
+
+def must_refuse(cfg, scheme):
+    """sound part of 'refuses exactly when it declared the scheme not relevant' for nested configurations: a Borda /
+    PickAPerm / BioCo leaf that itself answers 'not relevant' refuses every incomplete dataset, and a BioConsert runs every
+    one of its starters, so a starter's refusal is the refusal of the whole -- whatever the other starters and their order.
+    (A ParCons starter may or may not reach its auxiliary algorithm: nothing is required of it.)"""
+    if cfg in STRICT_LEAVES:
+        st, pred = call(libx.make_algorithm(cfg).is_scoring_scheme_relevant_when_incomplete_rankings, scheme)
+        return st == "ok" and pred is False
+    if cfg.startswith("BioConsert["):
+        return any(must_refuse(x, scheme) for x in libx.split_top(cfg[len("BioConsert["):-1]))
+    return False
 
 
 def plan(tier, seed):
@@ -33,7 +47,7 @@ def plan(tier, seed):
            [{"n_cases": 500, "mode": "AD", "hashseed": i} for i in range(3)]
 
 
-LEAVES = ["Borda", "PickAPerm", "Copeland", "KwikSort", "BordaBucket"]
+LEAVES = ["Borda", "PickAPerm", "Copeland", "KwikSort", "BordaBucket", "Borda", "PickAPerm", "Exact", "ParCons", "BioCo"]
 
 
 def nested_config(rng, depth=2):
@@ -70,7 +84,7 @@ def gen_case(rng, ctx):
         scls, sch = gen.scheme(rng, "S3 S4 S6 S1")
     cfgs = rng.sample(CONFIGS, 6) + [nested_config(rng), nested_config(rng)]
     return {"complete": libx.normalise_raw(dsc), "incomplete": libx.normalise_raw(dsi), "scheme": sch, "scls": scls,
-            "configs": cfgs, "libseed": rng.randrange(10 ** 6)}
+            "configs": cfgs, "libseed": rng.randrange(10 ** 6), "one": rng.random() < 0.6}
 
 
 def check_case(case, ctx):
@@ -83,9 +97,10 @@ def check_case(case, ctx):
     if not ref.is_complete(case["complete"]):
         ctx.error("generator produced an incomplete 'complete' dataset")
         return
+    one = case.get("one", True)
     for cfg in case["configs"]:
         sub = {"scheme": sch, "config": cfg, "complete": case["complete"], "incomplete": case["incomplete"],
-               "libseed": case["libseed"]}
+               "libseed": case["libseed"], "one": one}
         st, alg = call(libx.make_algorithm, cfg)
         if st == "exc":
             ctx.violation(f"C14/constructor-raises-{type(alg).__name__}", f"{cfg}: {exc_desc(alg)}", sub)
@@ -108,19 +123,27 @@ def check_case(case, ctx):
         ctx.count(f"pred:{cfg}:{pred}")
         # complete data: never refused
         libx.seed_library(case["libseed"])
-        st, cons = call(alg.compute_consensus_rankings, d_c, scheme, True)
+        one = case.get("one", True)
+        st, cons = call(alg.compute_consensus_rankings, d_c, scheme, one)
+        if st == "exc" and not one and isinstance(cons, libx.DOCUMENTED_REFUSALS[2]):
+            # the optimised CPLEX model documents that it cannot return all optimal rankings: a refusal of the arguments,
+            # not of the scheme
+            ctx.count("documented_argument_refusals")
+            one = True
+            st, cons = call(alg.compute_consensus_rankings, d_c, scheme, one)
         if st == "exc":
             sig = "C14/complete-dataset-refused" if isinstance(cons, libx.DOCUMENTED_REFUSALS) else \
                 f"C14/complete-dataset-raises-{type(cons).__name__}"
             ctx.violation(sig, f"{cfg} did not accept a complete dataset under a valid scheme: {exc_desc(cons)}", sub,
                           observed=type(cons).__name__)
-        elif common.consensus_problems(cons, d_c, True):
+        elif common.consensus_problems(cons, d_c, one):
             ctx.count("ill_formed_left_to_C03")
         # incomplete data
         if not inc_is_incomplete:
             continue
         libx.seed_library(case["libseed"])
-        st, cons = call(alg.compute_consensus_rankings, d_i, scheme, True)
+        st, cons = call(alg.compute_consensus_rankings, d_i, scheme, one)
+        ctx.count("runs_at_most_one" if one else "runs_all_rankings")
         refused = st == "exc" and isinstance(cons, (libx.DOCUMENTED_REFUSALS[0], libx.DOCUMENTED_REFUSALS[1]))
         if st == "exc" and not refused:
             ctx.violation(f"C14/incomplete-dataset-raises-{type(cons).__name__}", f"{cfg} (predicate={pred}) failed on an "
@@ -136,10 +159,13 @@ def check_case(case, ctx):
         else:
             ctx.count("acceptances_incomplete")
             ctx.count("acceptances:" + cfg)
-            probs = common.consensus_problems(cons, d_i, True)
+            probs = common.consensus_problems(cons, d_i, one)
             if probs and pred:
                 ctx.violation("C14/declared-relevant-but-ill-formed-consensus", f"{cfg}: {probs[0][1]}", sub)
-            if cfg in IFF and not pred:
+            nested_strict = cfg not in IFF and must_refuse(cfg, scheme)
+            if nested_strict:
+                ctx.count("strict_nested_configs_judged")
+            if (cfg in IFF and not pred) or nested_strict:
                 ctx.violation("C14/declared-not-relevant-but-accepted", f"{cfg} declared the scheme NOT relevant for "
                               "incomplete rankings but accepted an incomplete dataset", sub, observed="accepted",
                               expected="refusal")
@@ -162,6 +188,8 @@ def check_case(case, ctx):
                         else f"C14/complete-dataset-raises-{type(cons).__name__}:after-in-place-completion"
                     ctx.violation(sig, f"{cfg} did not accept a dataset made complete in place by remove_elements: "
                                   f"{exc_desc(cons)}", {**sub, "made_complete": now}, observed=type(cons).__name__)
+        if cfg not in IFF and refused and must_refuse(cfg, scheme):
+            ctx.count("strict_nested_configs_judged")
         if cfg in IFF or (pred and len(ref.universe(case["incomplete"])) >= 3):
             ctx.nontrivial(sub)
             ctx.sample({**sub, "predicate": pred, "incomplete_outcome": "refused" if refused else "accepted"},
@@ -177,6 +205,12 @@ def reach(counters, tier, info):
     v = counters.get("made_complete_in_place", 0)
     out.append({"name": "runs on an incomplete Dataset object made complete in place", "observed": v, "required": 150 * k,
                 "ok": v >= 150 * k})
+    v = counters.get("strict_nested_configs_judged", 0)
+    out.append({"name": "random nested BioConsert configurations with a Borda / PickAPerm / BioCo starter judged on "
+                "'refuses exactly when declared not relevant'", "observed": v, "required": 200 * k, "ok": v >= 200 * k})
+    for key, name in (("runs_at_most_one", "runs asking for at most one ranking"), ("runs_all_rankings", "runs asking for all")):
+        v = counters.get(key, 0)
+        out.append({"name": name, "observed": v, "required": 500 * k, "ok": v >= 500 * k})
     v = counters.get("nested_depth2_configs", 0)
     out.append({"name": "random nested configurations of depth 2", "observed": v, "required": 300 * k, "ok": v >= 300 * k})
     for cfg in sorted(IFF):
